@@ -34,27 +34,32 @@ class FragmentSpreadsMustNotFormCycles(June2018ReleaseValidationRule):
     RULE_NUMBER = "5.5.2.2"
 
     def _validate_fragment(self, fragments, fragment, spreaded):
+        # `spreaded` is the chain of fragments leading to `fragment`: only a
+        # fragment met again on its own chain is a cycle, spreading the same
+        # fragment several times (or through several paths) is legal.
         for selected in fragment.selection_set.selections:
             if isinstance(selected, FragmentSpreadNode):
-                if selected.name.value not in spreaded:
-                    spreaded.append(selected.name.value)
-
-                    fragment = find_nodes_by_name(
-                        fragments, selected.name.value
-                    )
-                    if not fragment:
-                        continue  # Handled by another validator
-                    fragment = fragment[0]
-
-                    self._validate_fragment(fragments, fragment, spreaded)
-                else:
+                if selected.name.value in spreaded:
                     raise CycleException(fragments, self._extensions)
-        return
+
+                spreaded_fragment = find_nodes_by_name(
+                    fragments, selected.name.value
+                )
+                if not spreaded_fragment:
+                    continue  # Handled by another validator
+
+                self._validate_fragment(
+                    fragments,
+                    spreaded_fragment[0],
+                    spreaded + [selected.name.value],
+                )
 
     def validate(self, fragments, **_):
         for fragment in fragments:
             try:
-                self._validate_fragment(fragments, fragment, [])
+                self._validate_fragment(
+                    fragments, fragment, [fragment.name.value]
+                )
             except CycleException as e:
                 return e.tartiflette_errors
 
